@@ -1,17 +1,480 @@
-//! C12 — stub (monitor not written yet)
-use serde_json::Value;
+//! C12 — checksum qualifier: one canonical text, typed round trip, order independence.
+//!
+//! Model R6 (`BTreeMap<lower(alg), hex>`) against the real `Checksum` (a randomly seeded
+//! `HashMap`): every history is executed on several fresh instances (each with its own hash
+//! keys); the iteration order that `iter()` exposes is recorded so that the evidence shows how
+//! many distinct hash orders were actually seen producing the one canonical text.
+
+use std::collections::{BTreeMap, BTreeSet};
+
+use purl::qualifiers::well_known::Checksum;
+use purl::{GenericPurlBuilder, SmallString};
+use serde::{Deserialize, Serialize};
+use serde_json::{json, Value};
 
 use super::Fail;
-use crate::obs::{Ctx, Tier};
+use crate::model::{ascii_lower, checksum_text, lower};
+use crate::obs::{self, guard, guard_res, Ctx, Out, Tier};
+use crate::rng::{fnv, Rng};
+use crate::shrink::shrink_vec;
 
-pub const RULE: &str = "";
+pub const RULE: &str = "a case is one checksum history (inserts / raw inserts / removes in some order and letter case) executed on a fresh instance; non-trivial = the final set has >= 2 entries, or an entry was replaced through another letter case, or an entry was removed; distinct by hash of the history";
 
-pub fn requirements(_tier: Tier) -> Vec<(&'static str, u64)> {
-    vec![("not-implemented", 1)]
+pub fn requirements(tier: Tier) -> Vec<(&'static str, u64)> {
+    let q = tier == Tier::Quick;
+    vec![
+        ("histories", if q { 20_000 } else { 1_000_000 }),
+        ("instances", if q { 100_000 } else { 5_000_000 }),
+        ("sets-with>=4-entries", 2_000),
+        ("percent:sets-with>=4-entries-and>=2-hash-orders/sets-with>=4-entries", 90),
+        ("max:distinct-hash-orders-for-one-set", 4),
+        ("permutation-groups-complete", 1_000),
+        ("replaced-through-other-case", 1_000),
+        ("removed", 1_000),
+        ("purl-parsed-with-checksum", 2_000),
+        ("purl-built-with-checksum", 2_000),
+        ("non-ascii-case-variant-used", 100),
+        ("empty-set", 10),
+    ]
 }
 
-pub fn run(_ctx: &mut Ctx) {}
+#[derive(Clone, Debug, Serialize, Deserialize, PartialEq, Eq, Hash)]
+pub enum COp {
+    Insert(String, Vec<u8>),
+    /// insert_raw with hex text in arbitrary letter case
+    InsertRaw(String, String),
+    /// remove by the stored (lower-case) name
+    Remove(String),
+}
 
-pub fn replay(_monitor: &str, _case: &Value) -> Result<Option<Fail>, String> {
-    Err("not implemented".into())
+type Model = BTreeMap<String, String>;
+
+pub fn model_of(ops: &[COp]) -> Model {
+    let mut m = Model::new();
+    for op in ops {
+        match op {
+            COp::Insert(a, b) => {
+                m.insert(lower(a), hex::encode(b));
+            },
+            COp::InsertRaw(a, h) => {
+                m.insert(lower(a), h.clone());
+            },
+            COp::Remove(a) => {
+                m.remove(a);
+            },
+        }
+    }
+    m
+}
+
+pub fn real_of(ops: &[COp]) -> Checksum<'static> {
+    let mut c = Checksum::default();
+    for op in ops {
+        match op {
+            COp::Insert(a, b) => c.insert(a, b.clone()),
+            COp::InsertRaw(a, h) => c.insert_raw(a, h.clone()),
+            COp::Remove(a) => c.remove(a),
+        }
+    }
+    c
+}
+
+/// Judge one fresh instance. Returns the iteration order exposed by `iter()`.
+pub fn judge_instance(ops: &[COp]) -> (Option<String>, Option<Fail>) {
+    let m = model_of(ops);
+    let want_text = checksum_text(&m);
+    let built = guard("Checksum inserts", || real_of(ops));
+    let c = match built {
+        Out::Ok(c) => c,
+        o => return (None, Some(Fail::tagged("panicked", o.kind(), format!("history {ops:?}: {}", o.kind())))),
+    };
+    // (1) typed accessors agree with the model, before serialising
+    let mut order: Vec<String> = Vec::new();
+    let mut seen: BTreeMap<String, String> = BTreeMap::new();
+    for (a, v) in c.iter() {
+        order.push(a.to_string());
+        seen.insert(a.to_string(), v.raw().to_string());
+    }
+    if seen != m {
+        return (None, Some(Fail::tagged("entries-differ", "iter", format!("after {ops:?} iter() yields {seen:?}; the model holds {m:?}"))));
+    }
+    let algs: BTreeSet<String> = c.algorithms().map(str::to_owned).collect();
+    if algs != m.keys().cloned().collect() {
+        return (None, Some(Fail::tagged("entries-differ", "algorithms", format!("after {ops:?} algorithms() = {algs:?}; the model holds {:?}", m.keys()))));
+    }
+    let via_into: BTreeMap<String, String> = (&c).into_iter().map(|(a, v)| (a.to_string(), v.to_string())).collect();
+    if via_into != m {
+        return (None, Some(Fail::tagged("entries-differ", "into_iter", format!("after {ops:?} (&checksum).into_iter() yields {via_into:?}"))));
+    }
+    for (a, h) in &m {
+        if c.get_raw(a) != Some(h.as_str()) {
+            return (None, Some(Fail::tagged("entries-differ", "get_raw", format!("get_raw({a:?}) = {:?}, model {h:?}", c.get_raw(a)))));
+        }
+        match c.get::<Vec<u8>>(a) {
+            Ok(Some(b)) if hex::encode(&b) == ascii_lower(h) => {},
+            o => return (None, Some(Fail::tagged("decode-differs", "get", format!("get::<Vec<u8>>({a:?}) = {o:?}; inserted hex {h:?}")))),
+        }
+        match c.get_value(a).map(|v| (v.raw().to_string(), v.decode::<Vec<u8>>())) {
+            Some((raw, Ok(b))) if raw == *h && hex::encode(&b) == ascii_lower(h) => {},
+            o => return (None, Some(Fail::tagged("decode-differs", "get_value", format!("get_value({a:?}) = {o:?}; inserted hex {h:?}")))),
+        }
+    }
+    // (2) one canonical text
+    let text = match guard_res("SmallString::try_from(Checksum)", || SmallString::try_from(c.clone())) {
+        Out::Ok(t) => t.to_string(),
+        o => return (None, Some(Fail::tagged("serialise-failed", o.kind(), format!("serialising the checksum after {ops:?}: {}", o.kind())))),
+    };
+    if text != want_text {
+        return (
+            Some(order.join("\u{1}")),
+            Some(Fail::tagged("text-not-canonical", "", format!("after {ops:?} (hash order {order:?}) the text is {text:?}; canonical is {want_text:?}"))),
+        );
+    }
+    // (3) the text parses back to the same entries
+    if !m.is_empty() {
+        match guard_res("Checksum::try_from(&str)", || Checksum::try_from(text.as_str())) {
+            Out::Ok(back) => {
+                let b: BTreeMap<String, String> = back.iter().map(|(a, v)| (a.to_string(), v.raw().to_string())).collect();
+                let want: BTreeMap<String, String> = m.iter().map(|(a, h)| (a.clone(), ascii_lower(h))).collect();
+                if b != want {
+                    return (None, Some(Fail::tagged("parse-back-differs", "", format!("text {text:?} parses back to {b:?}; entries are {want:?}"))));
+                }
+                for (a, h) in &want {
+                    match back.get::<Vec<u8>>(a) {
+                        Ok(Some(bytes)) if hex::encode(&bytes) == *h => {},
+                        o => return (None, Some(Fail::tagged("decode-differs", "parse-back", format!("text {text:?}: get({a:?}) = {o:?}")))),
+                    }
+                }
+            },
+            o => return (None, Some(Fail::tagged("parse-back-failed", o.kind(), format!("text {text:?} does not parse back: {}", o.kind())))),
+        }
+    }
+    (Some(order.join("\u{1}")), None)
+}
+
+/// A PURL parsed / built with the checksum carries exactly the canonical text.
+pub fn judge_purl(ops: &[COp], spelling: &str) -> Option<Fail> {
+    let m = model_of(ops);
+    let want = checksum_text(&m);
+    let want_opt = if want.is_empty() { None } else { Some(want.as_str()) };
+    let want_entries: BTreeMap<String, String> = m.iter().map(|(a, h)| (a.clone(), ascii_lower(h))).collect();
+    let check = |how: &str, p: &purl::GenericPurl<String>| -> Option<Fail> {
+        let got = p.qualifiers().get("checksum");
+        if got != want_opt {
+            return Some(Fail::tagged("purl-text-differs", how.to_string(), format!("{how}: the PURL carries checksum {got:?}; canonical is {want_opt:?}")));
+        }
+        match p.qualifiers().try_get_typed::<Checksum>() {
+            Ok(None) if want_opt.is_none() => None,
+            Ok(Some(c)) => {
+                let e: BTreeMap<String, String> = c.iter().map(|(a, v)| (a.to_string(), v.raw().to_string())).collect();
+                if e != want_entries {
+                    Some(Fail::tagged("purl-typed-entries-differ", how.to_string(), format!("{how}: typed accessor gives {e:?}; entries are {want_entries:?}")))
+                } else {
+                    None
+                }
+            },
+            o => Some(Fail::tagged("purl-typed-accessor", how.to_string(), format!("{how}: try_get_typed::<Checksum>() = {:?}", o.map(|x| x.is_some())))),
+        }
+    };
+    match obs::parse::<String>(spelling) {
+        Out::Ok(p) => {
+            if let Some(f) = check("parsed", &p) {
+                return Some(Fail::tagged(f.kind, f.tag, format!("{spelling:?}: {}", f.detail)));
+            }
+        },
+        o => return Some(Fail::tagged("purl-refused", o.kind(), format!("{spelling:?} (an equivalent spelling of the entries {want_entries:?}) was answered with {}", o.kind()))),
+    }
+    let cs = real_of(ops);
+    let b = GenericPurlBuilder::new("t".to_string(), "n");
+    match guard_res("try_with_typed_qualifier", || b.try_with_typed_qualifier(Some(cs))).map(obs::build) {
+        Out::Ok(Out::Ok(p)) => check("built", &p),
+        Out::Ok(o) => Some(Fail::tagged("purl-build-failed", o.kind(), format!("building with the checksum after {ops:?}: {}", o.kind()))),
+        o => Some(Fail::tagged("purl-build-failed", o.kind(), format!("try_with_typed_qualifier after {ops:?}: {}", o.kind()))),
+    }
+}
+
+// --- generation ------------------------------------------------------------------------------
+
+fn rand_alg(r: &mut Rng) -> String {
+    let n = *r.pick(&[0usize, 1, 2, 3, 4, 6, 10, 30]);
+    let mut s = String::new();
+    for _ in 0..n {
+        let c = match r.below(24) {
+            0 => ':',
+            1 => *r.pick(&['é', 'É', 'æ', 'Æ', 'ǆ', 'ǅ', 'Ǆ', 'ω', 'Ω', 'σ', 'Σ', 'ς', 'ß', '中', 'ᾀ', 'ᾈ', 'İ', 'ı', 'ſ', '\u{212A}']),
+            2 => *r.pick(&['-', '_', '.', '/', ' ', '=', '&', '+', '@', '?', '#', '%', '"', '\0']),
+            3 => *r.pick(b"0123456789") as char,
+            4..=7 => *r.pick(b"ABCDEFGHIJKLMNOPQRSTUVWXYZ") as char,
+            _ => *r.pick(b"abcdefghijklmnopqrstuvwxyz") as char,
+        };
+        s.push(c);
+    }
+    s
+}
+
+/// A spelling of `a` in another letter case with the same per-character lower-casing.
+fn case_variant(r: &mut Rng, a: &str) -> (String, bool) {
+    let mut non_ascii = false;
+    let v: String = a
+        .chars()
+        .map(|c| {
+            if !r.coin() {
+                return c;
+            }
+            let mut up = c.to_uppercase();
+            let cand = match (up.next(), up.next()) {
+                (Some(u), None) => u,
+                _ => return c,
+            };
+            let cand = if cand == c { c.to_lowercase().next().unwrap_or(c) } else { cand };
+            if lower(&cand.to_string()) == lower(&c.to_string()) {
+                if cand != c && !c.is_ascii() {
+                    non_ascii = true;
+                }
+                cand
+            } else {
+                c
+            }
+        })
+        .collect();
+    if lower(&v) == lower(a) {
+        (v, non_ascii)
+    } else {
+        (a.to_string(), false)
+    }
+}
+
+fn hex_case(r: &mut Rng, bytes: &[u8]) -> String {
+    hex::encode(bytes).chars().map(|c| if r.coin() { c.to_ascii_uppercase() } else { c }).collect()
+}
+
+pub struct Gen {
+    pub ops: Vec<COp>,
+    pub replaced: bool,
+    pub removed: bool,
+    pub non_ascii_variant: bool,
+}
+
+pub fn gen_history(r: &mut Rng) -> Gen {
+    let n = *r.pick(&[0usize, 1, 2, 3, 4, 4, 5, 6, 8, 12]);
+    let mut entries: Vec<(String, Vec<u8>)> = Vec::new();
+    for _ in 0..n {
+        let a = rand_alg(r);
+        if entries.iter().any(|(x, _)| lower(x) == lower(&a)) {
+            continue;
+        }
+        let len = *r.pick(&[0usize, 1, 2, 4, 16, 20, 32, 64]);
+        entries.push((a, (0..len).map(|_| r.below(256) as u8).collect()));
+    }
+    let mut g = Gen { ops: vec![], replaced: false, removed: false, non_ascii_variant: false };
+    for (a, b) in &entries {
+        // sometimes insert an earlier value under another letter case first (must be replaced)
+        if r.chance(1, 4) {
+            let (v, na) = case_variant(r, a);
+            g.non_ascii_variant |= na;
+            g.ops.push(COp::Insert(v, vec![0xde, 0xad]));
+            g.replaced = true;
+        }
+        let (v, na) = case_variant(r, a);
+        g.non_ascii_variant |= na;
+        if r.coin() {
+            g.ops.push(COp::Insert(v, b.clone()));
+        } else {
+            g.ops.push(COp::InsertRaw(v, hex_case(r, b)));
+        }
+        if r.chance(1, 8) {
+            g.ops.push(COp::Remove(lower(a)));
+            g.removed = true;
+            if r.coin() {
+                g.ops.push(COp::Insert(a.clone(), b.clone()));
+            }
+        }
+    }
+    g
+}
+
+/// The entries of the final set as independent single inserts (used for permutations).
+fn final_inserts(r: &mut Rng, ops: &[COp]) -> Vec<COp> {
+    model_of(ops)
+        .into_iter()
+        .map(|(a, h)| {
+            let (v, _) = case_variant(r, &a);
+            COp::InsertRaw(v, h)
+        })
+        .collect()
+}
+
+fn permutations(n: usize) -> Vec<Vec<usize>> {
+    fn go(cur: &mut Vec<usize>, used: &mut Vec<bool>, out: &mut Vec<Vec<usize>>) {
+        if cur.len() == used.len() {
+            out.push(cur.clone());
+            return;
+        }
+        for i in 0..used.len() {
+            if !used[i] {
+                used[i] = true;
+                cur.push(i);
+                go(cur, used, out);
+                cur.pop();
+                used[i] = false;
+            }
+        }
+    }
+    let mut out = Vec::new();
+    go(&mut Vec::new(), &mut vec![false; n], &mut out);
+    out
+}
+
+fn spell_checksum(r: &mut Rng, ops: &[COp]) -> String {
+    let m = model_of(ops);
+    let mut entries: Vec<String> = m
+        .iter()
+        .map(|(a, h)| {
+            let (v, _) = case_variant(r, a);
+            let h: String = h.chars().map(|c| if r.coin() { c.to_ascii_uppercase() } else { c.to_ascii_lowercase() }).collect();
+            format!("{v}:{h}")
+        })
+        .collect();
+    r.shuffle(&mut entries);
+    let text = entries.join(",");
+    let mut enc = String::new();
+    for c in text.chars() {
+        let keep_raw = c.is_ascii_alphanumeric() || (matches!(c, ':' | ',' | '-' | '_' | '.' | '/' | '=' | '@' | ' ' | '"') && r.coin()) || (!c.is_ascii() && r.coin());
+        if keep_raw {
+            enc.push(c);
+        } else {
+            let mut buf = [0u8; 4];
+            for b in c.encode_utf8(&mut buf).bytes() {
+                if r.coin() {
+                    enc.push_str(&format!("%{b:02X}"));
+                } else {
+                    enc.push_str(&format!("%{b:02x}"));
+                }
+            }
+        }
+    }
+    let key: String = "checksum".chars().map(|c| if r.coin() { c.to_ascii_uppercase() } else { c }).collect();
+    match r.below(3) {
+        0 => format!("pkg:t/n?{key}={enc}"),
+        1 => format!("pkg:t/n?a=1&{key}={enc}&z=2"),
+        _ => format!("pkg:T/ns/n@1?{key}={enc}#s"),
+    }
+}
+
+fn report(ctx: &mut Ctx, ops: &[COp], f: Fail) {
+    let (kind, tag) = (f.kind.clone(), f.tag.clone());
+    // a hash-order dependent failure may need several fresh instances to show again
+    let fails = |cs: &[COp]| (0..24).any(|_| judge_instance(cs).1.map_or(false, |g| g.kind == kind && g.tag == tag));
+    let min = shrink_vec(ops, &mut |cs| fails(cs));
+    let g = (0..24).find_map(|_| judge_instance(&min).1).unwrap_or(f);
+    ctx.st.violation("C12.checksum", format!("C12.checksum:{}:{}", g.kind, g.tag), g.detail, json!({"kind": "history", "ops": min, "instances": 64}));
+}
+
+pub fn run(ctx: &mut Ctx) {
+    let mut r = ctx.rng("c12");
+    let instances_per_history = if ctx.quick() { 6 } else { 8 };
+    let mut digest: u64 = 0;
+    for i in 0..ctx.share(24_000, 1_200_000) {
+        let g = gen_history(&mut r);
+        let m = model_of(&g.ops);
+        ctx.st.count("histories");
+        if m.is_empty() {
+            ctx.st.count("empty-set");
+        }
+        if g.replaced {
+            ctx.st.count("replaced-through-other-case");
+        }
+        if g.removed {
+            ctx.st.count("removed");
+        }
+        if g.non_ascii_variant {
+            ctx.st.count("non-ascii-case-variant-used");
+        }
+        if m.len() >= 2 || g.replaced || g.removed {
+            ctx.st.nontrivial(fnv(format!("{:?}", g.ops).as_bytes()));
+        }
+        // digest of the texts the *library* produced (compared across processes by ./check)
+        if let Out::Ok(t) = guard_res("SmallString::try_from(Checksum)", || SmallString::try_from(real_of(&g.ops))) {
+            digest = crate::rng::mix(digest, fnv(t.as_bytes()));
+        }
+        // several fresh instances (each HashMap gets its own hash keys)
+        let mut orders: BTreeSet<String> = BTreeSet::new();
+        let mut failed = false;
+        for _ in 0..instances_per_history {
+            ctx.st.evaluations += 1;
+            ctx.st.count("instances");
+            let (order, f) = judge_instance(&g.ops);
+            if let Some(o) = order {
+                orders.insert(o);
+            }
+            if let Some(f) = f {
+                report(ctx, &g.ops, f);
+                failed = true;
+                break;
+            }
+        }
+        if failed {
+            continue;
+        }
+        // every insertion order of the final set (complete for n <= 4, sampled beyond)
+        let singles = final_inserts(&mut r, &g.ops);
+        let n = singles.len();
+        let perms: Vec<Vec<usize>> = if n <= 4 {
+            permutations(n)
+        } else {
+            (0..12)
+                .map(|_| {
+                    let mut p: Vec<usize> = (0..n).collect();
+                    r.shuffle(&mut p);
+                    p
+                })
+                .collect()
+        };
+        if n >= 2 && n <= 4 {
+            ctx.st.count("permutation-groups-complete");
+        }
+        for p in &perms {
+            let ops: Vec<COp> = p.iter().map(|&i| singles[i].clone()).collect();
+            ctx.st.evaluations += 1;
+            ctx.st.count("instances");
+            let (order, f) = judge_instance(&ops);
+            if let Some(o) = order {
+                orders.insert(o);
+            }
+            if let Some(f) = f {
+                report(ctx, &ops, f);
+                break;
+            }
+        }
+        if n >= 4 {
+            ctx.st.count("sets-with>=4-entries");
+            if orders.len() >= 2 {
+                ctx.st.count("sets-with>=4-entries-and>=2-hash-orders");
+            }
+        }
+        ctx.st.max("max:distinct-hash-orders-for-one-set", orders.len() as u64);
+        ctx.st.count_dyn(format!("hash-orders-seen-for-sets-of-size-{:02}:{}", n.min(12), if orders.len() >= 8 { ">=8".to_string() } else { orders.len().to_string() }));
+        // PURLs carrying the checksum
+        if i % 4 == 0 {
+            let s = spell_checksum(&mut r, &g.ops);
+            ctx.st.evaluations += 2;
+            ctx.st.count("purl-parsed-with-checksum");
+            ctx.st.count("purl-built-with-checksum");
+            ctx.st.sample(|| json!({"history": g.ops, "canonical_text": checksum_text(&m), "distinct_hash_orders_seen": orders.len(), "purl_spelling": s}));
+            if let Some(f) = judge_purl(&g.ops, &s) {
+                ctx.st.violation("C12.checksum", format!("C12.checksum:{}:{}", f.kind, f.tag), f.detail, json!({"kind": "purl", "ops": g.ops, "spelling": s}));
+            }
+        }
+    }
+    // digest of all canonical texts of this worker: compared across processes by ./check
+    ctx.st.set_insert("texts-digest", format!("{:02}:{digest:016x}", ctx.worker));
+}
+
+pub fn replay(_monitor: &str, case: &Value) -> Result<Option<Fail>, String> {
+    let ops: Vec<COp> = serde_json::from_value(case.get("ops").cloned().unwrap_or(Value::Null)).map_err(|e| e.to_string())?;
+    match super::str_field(case, "kind")? {
+        "history" => Ok((0..64).find_map(|_| judge_instance(&ops).1)),
+        "purl" => Ok(judge_purl(&ops, super::str_field(case, "spelling")?)),
+        o => Err(format!("unknown case kind {o}")),
+    }
 }
